@@ -179,9 +179,17 @@ int main(void) {
             else if (tok[0] == '#') { a->kind = 1; a->i = strtoll(tok + 1, NULL, 10); a->u = (tok[1] == '-') ? (unsigned long long)a->i : strtoull(tok + 1, NULL, 10); if (tok[1] != '-' && a->u > 0x7fffffffffffffffULL) a->i = (long long)a->u; }
             else { a->kind = 2; a->len = tl / 2; a->b = (unsigned char *)tok; for (j = 0; j < a->len; j++) a->b[j] = (unsigned char)(hexv(tok[2*j]) * 16 + hexv(tok[2*j+1])); }
         }
+#ifdef VERIF_EXACT_BUFFERS
+        /* sanitizer builds: every byte-string argument lives in a heap block of exactly its length (also length 0), so that a
+           read or write past the declared length is seen by AddressSanitizer */
+        for (i = 0; i < NA; i++) if (A[i].kind == 2) { unsigned char *h = malloc(A[i].len); if (A[i].len) memcpy(h, A[i].b, A[i].len); A[i].b = h; }
+#endif
         g_ill = 0; g_err = 0;
         if (!op) { out_int(-98); }
         else op->fn();
+#ifdef VERIF_EXACT_BUFFERS
+        for (i = 0; i < NA; i++) if (A[i].kind == 2) free(A[i].b);
+#endif
         if (g_ill) { out_reserve(32); out_sep(); OUTLEN += sprintf(OUT + OUTLEN, "ILL%ld", g_ill); }
         if (g_err) { out_reserve(32); out_sep(); OUTLEN += sprintf(OUT + OUTLEN, "ERR%ld", g_err); }
         OUT[OUTLEN] = 0; puts(OUT); fflush(stdout);
